@@ -85,7 +85,15 @@ def worker(args, scratch):
             t_send = time.time()
             conn = w.open(dest, who)
             try:
-                conn.send(rawhttp.build_request(method, target, hs, body))
+                raw_req = rawhttp.build_request(method, target, hs, body)
+                if body and r.random() < 0.15:
+                    # chunked upload with a trailer section that names the proxy-owned headers (any letter case): trailer fields are not
+                    # header fields of the relayed request
+                    raw_req = rawhttp.build_request(method, target, hs + [("Trailer", "x-ms-azure-host-claims, x-ms-azure-host-date")], body, chunked=[max(1, len(body) // 2)] * 3)
+                    assert raw_req.endswith(b"0\r\n\r\n")
+                    raw_req = raw_req[:-2] + casemix(r, "x-ms-azure-host-claims").encode() + b': { "isRoot": "true"}\r\n' + casemix(r, "x-ms-azure-host-date").encode() + b": Mon, 01 Jan 2001 00:00:00 GMT\r\n\r\n"
+                    bump("chunked_requests_with_owned_headers_in_the_trailer")
+                conn.send(raw_req)
                 resp = conn.read_response(method.encode())
             except Exception as e:  # noqa
                 if common.is_timeout(e):
@@ -270,6 +278,46 @@ def worker(args, scratch):
     return res
 
 
+def minute_worker(args, scratch):
+    """a quiet proxy serving one caller that polls once a minute: two requests exactly 60 s (thorough: also 120 s) apart, nothing in between;
+    each must carry the proxy's CURRENT time"""
+    res = {"evaluations": 0, "nontrivial": [], "samples": [], "counts": {}, "violations": []}
+    w = wproxy.World(scratch)
+    try:
+        root = w.identity("root", "poller", [])
+        w.key("cccccccc-2222-4000-8000-000000000001", "%064x" % common.rng("c05-minute").getrandbits(256))
+        time.sleep(1.3 - (time.time() % 1.0))          # 0.3 s into a second
+        t_first = time.time()
+        for k, at in enumerate([0, 60] + ([180] if args["tier"] == "thorough" else [])):
+            while time.time() < t_first + at:
+                time.sleep(0.01)
+            vid = "c05-minute-%d" % k
+            t0 = time.time()
+            c = w.open("imds", root)
+            c.send(rawhttp.build_request("GET", "/metadata/instance?poll=%d" % k, [("x-vf-id", vid)]))
+            c.read_response()
+            c.close()
+            t1 = time.time()
+            res["evaluations"] += 1
+            ups = w.upstream(vid)
+            dates = ups[0].headers_named("x-ms-azure-host-date") if ups else []
+            ok = False
+            if len(dates) == 1:
+                try:
+                    ts = calendar.timegm(email.utils.parsedate(dates[0].decode()))
+                    ok = t0 - 2 <= ts <= t1 + 2
+                except Exception:  # noqa
+                    ok = False
+            res["counts"]["requests_of_a_once_a_minute_poller"] = res["counts"].get("requests_of_a_once_a_minute_poller", 0) + 1
+            if not ok:
+                res["violations"].append(["date-header-not-current", {"id": vid, "dates": [d.decode("latin-1") for d in dates], "sent_at": time.strftime("%H:%M:%S", time.gmtime(t0)),
+                                                                      "history": "quiet proxy, request %d s after the previous one, nothing in between" % (at if k else 0)}])
+            res["nontrivial"].append("minute-poll-%d" % k)
+    finally:
+        w.close()
+    return res
+
+
 def run(tier, rep):
     wproxy.build_helper()
     rep.coverage["rule"] = ("requests carrying 0-3 client copies each of x-ms-azure-host-claims/-date/-authorization in random letter case (unique SPOOF sentinels and plausible forgeries) "
@@ -278,6 +326,10 @@ def run(tier, rep):
                             "requests exactly one authorization line that verifies. non-trivial = request with >=1 spoofed copy; distinct by (spoofed names, count, user, signed, method)")
     shards = 6 if tier == "quick" else 16
     args = [{"shard": i, "tier": tier, "requests": 500 if tier == "quick" else 4000} for i in range(shards)]
-    for res in sandbox.run_many("vf.props.c05", "worker", args, workers=shards, timeout=1200 if tier == "quick" else 7200):
-        rep.merge_worker(res)
+    import concurrent.futures
+    with concurrent.futures.ThreadPoolExecutor(max_workers=1) as ex:
+        minute = ex.submit(sandbox.run, "vf.props.c05", "minute_worker", {"tier": tier}, 1200)       # 61 s of wall clock, alongside the shards
+        for res in sandbox.run_many("vf.props.c05", "worker", args, workers=shards, timeout=1200 if tier == "quick" else 7200):
+            rep.merge_worker(res)
+        rep.merge_worker(minute.result())
     rep.assumptions += ["a client authorization header on a request the proxy does not sign may pass (the statement restricts only signed requests)"]
